@@ -15,6 +15,7 @@ type Profile struct {
 	DataRatio   int // chance (in 100) that a packet op is a Data
 	NextHop     int // chance (in 100) that an Interest carries NextHopFaceId
 	Hints       int // chance (in 100) of a forwarding hint
+	DnlShape    int // chance (in 100) that a history contains the dead-nonce re-report shape (dnlRereport)
 	FibChurn    int // chance (in 100) of a FIB/strategy/face change between packets
 	DefaultToNL int // chance (in 100) of a default route towards a non-local face
 	LinkSvc     int // chance (in 100) that a history enters through the real link service ("ls")
@@ -22,9 +23,9 @@ type Profile struct {
 }
 
 var (
-	P01 = Profile{ID: "C01", Localhost: 8, DataRatio: 45, NextHop: 3, Hints: 10, FibChurn: 6, DefaultToNL: 30, LinkSvc: 35, RealTCP: 10}
-	P02 = Profile{ID: "C02", Localhost: 6, DataRatio: 25, NextHop: 10, Hints: 20, FibChurn: 15, DefaultToNL: 30, LinkSvc: 35, RealTCP: 10}
-	P09 = Profile{ID: "C09", Localhost: 45, DataRatio: 40, NextHop: 12, Hints: 8, FibChurn: 8, DefaultToNL: 70, LinkSvc: 50, RealTCP: 35}
+	P01 = Profile{ID: "C01", DnlShape: 4, Localhost: 8, DataRatio: 45, NextHop: 3, Hints: 10, FibChurn: 6, DefaultToNL: 30, LinkSvc: 35, RealTCP: 10}
+	P02 = Profile{ID: "C02", DnlShape: 20, Localhost: 6, DataRatio: 25, NextHop: 10, Hints: 20, FibChurn: 15, DefaultToNL: 30, LinkSvc: 35, RealTCP: 10}
+	P09 = Profile{ID: "C09", DnlShape: 4, Localhost: 45, DataRatio: 40, NextHop: 12, Hints: 8, FibChurn: 8, DefaultToNL: 70, LinkSvc: 50, RealTCP: 35}
 )
 
 func comp(s string) enc.Component {
@@ -105,6 +106,49 @@ func (s *genSt) adv() {
 	s.advs++
 	s.g.Op("adv %d", ms*1000000-1000)
 	s.g.Stat("op-adv")
+}
+
+func (s *genSt) advMs(ms int) {
+	s.advs++
+	s.g.Op("adv %d", ms*1000000-1000)
+	s.g.Stat("op-adv")
+}
+
+/*
+dnlRereport plays the timed shape in which a (name, nonce) pair is reported dead twice, leaves the dead
+nonce list, is recorded again and must then still be dead (L = dead nonce list lifetime):
+
+	0        I f N n1 life=X      forwarded (out-record n1)
+	10 ms    I f N n2             aggregated; reports n1 dead (t0)
+	t1≈10+X  PIT entry expires    finalize reports the out-record's nonce n1 again (no-op while listed)
+	t0+L     n1 leaves the list
+	t2       I f N n1 ; I f N n3  accepted again, forwarded; the retransmission records n1 dead afresh
+	t3       I f N n1             t1+L < t3 < t2+L: must be dropped (dead), in every implementation that
+	                              keeps one expiry per record
+*/
+func (s *genSt) dnlRereport(L int) {
+	r := s.r
+	f := s.face()
+	up := s.face()
+	for up == f {
+		up = s.face()
+	}
+	n := nm(common.Pick(r, alphabet), "dnl")
+	name := common.NameText(n)
+	s.g.Op("fib %s %d 0", name, up)
+	X := L * 3 / 5
+	s.g.Op("I %d %s 0 0 11 - %d - - -", f, name, X)
+	s.advMs(10)
+	s.g.Op("I %d %s 0 0 12 - %d - - -", f, name, X)
+	// past t0+L and one tick, before t1+L
+	s.advMs(L + 150)
+	s.advMs(100)
+	s.g.Op("I %d %s 0 0 11 - %d - - -", f, name, 4*L)
+	s.g.Op("I %d %s 0 0 13 - %d - - -", f, name, 4*L)
+	// past t1+L (≈ 10+X+100+L) and one tick, before t2+L
+	s.advMs(X + 250)
+	s.g.Op("I %d %s 0 0 11 - %d - - -", f, name, 4*L)
+	s.g.Stat("dnl-rereport-shape")
 }
 
 func (s *genSt) tokHex() string {
@@ -313,8 +357,9 @@ func Gen(g *common.Gen, p Profile) {
 		} else {
 			g.Stat("ingress-direct")
 		}
+		dnlMs := common.Pick(r, []int{300, 1000, 1000, 6000})
 		g.Op("new %d %d %d %d %s%s", admit, serve, common.Pick(r, []int{0, 1, 2, 8, 8, 64}),
-			common.Pick(r, []int{300, 1000, 1000, 6000}), common.Pick(r, []string{"nametree", "nametree", "nametree", "hashtable"}), ls)
+			dnlMs, common.Pick(r, []string{"nametree", "nametree", "nametree", "hashtable"}), ls)
 		nf := r.Range(3, 5)
 		nonlocal := []int{}
 		for k := 0; k < nf; k++ {
@@ -376,6 +421,9 @@ func Gen(g *common.Gen, p Profile) {
 		}
 		if r.Chance(1, 4) {
 			g.Op("region /8:72")
+		}
+		if r.Intn(100) < p.DnlShape {
+			s.dnlRereport(dnlMs)
 		}
 		np := r.Range(10, 40)
 		for k := 0; k < np; k++ {
